@@ -25,6 +25,10 @@ def body(chk):
     cfg = "MC_ImageIO_quick" if chk.tier == "quick" else "MC_ImageIO_thorough"
     r2 = tlc.run_ok("MC_ImageIO", cfg, workers=16, env={"GEOMS_FILE": gf}, timeout=3000)
     chk.tlc_stats(r2)
+    # the store's way of reporting a missing file is part of the model (directories, no-list-permission stores, archives): without the
+    # translation of an archive's KeyError for image files (the code before fix 7ac6177) TLC must find the counterexample
+    if "MissingIsOSError" not in tlc.run("MC_OpenCall", "MC_OpenCall_bug16", workers=4).violated:
+        raise checklib.Machinery("non-vacuity: OpenCall without the image KeyError translation must violate MissingIsOSError on mapping-like stores")
     for r in (r1, r2):
         for v in r.violated:
             chk.violation(f"model:{v}", f"TLC: {v} violated", {"tlc": r.out[-3000:]})
